@@ -4,7 +4,8 @@
    prime in Base/Certs.v); that the two backends (u64 arkworks Montgomery, u32 fiat-crypto) implement this model is
    established by the correspondence check (every impl of ops.rs individually, boundary operands), not by proof. *)
 Require Import ZArith List Bool Znumtheory.
-From D377 Require Import Base.Certs Model.CVal Model.Bytes Model.FieldTable Proofs.FieldLemmas.
+From D377 Require Import Base.Certs Base.ZpField Base.Fields Model.CVal Model.Bytes Model.FieldTable Proofs.FieldLemmas Tie.FieldPower.
+From D377 Require Generated.Curve.
 Open Scope Z_scope.
 
 Section AnyPrime.
@@ -47,3 +48,8 @@ Theorem C10_fr_inverse : forall x, x mod r <> 0 -> fmul r x (finv r x) = 1 /\ 0 
 Proof. exact (C10_inverse r r_gt1' r_prime). Qed.
 Theorem C10_fp_inverse : forall x, x mod p <> 0 -> fmul p x (finv p x) = 1 /\ 0 <= finv p x < p.
 Proof. exact (C10_inverse p p_gt1' p_prime). Qed.
+(* Fq::power as regenerated from src/fields/fq.rs on every run (translator/rs2v.py, Tie/FieldPower.v): for every base and every list of 64-bit
+   limbs the loop nest of the source returns base^(the whole multi-limb exponent) mod q *)
+Theorem C10_generated_power : forall (x : Fq) limbs, Forall (fun l => 0 <= l < 2 ^ 64) limbs ->
+  val (@Generated.Curve.fq_power FqF x limbs) = (val x) ^ (limbs64 limbs) mod q.
+Proof. intros x limbs H. rewrite tie_fq_power. exact (C10_power q q_gt1' (val x) limbs H). Qed.
